@@ -1,10 +1,12 @@
 (* Semantics of the x86 SIMD intrinsics and of the C / Rust scalar expressions that occur in
-   the `load_counters*` functions of
+   the `load_counters*` functions, the vector round functions (`round`, `round_fn*`, with their
+   add/xor/rot helpers) and the register transposes (`transpose_vecs*`) of
      c/blake3_sse2.c, c/blake3_sse41.c, c/blake3_avx2.c, c/blake3_avx512.c,
      src/rust_sse2.rs, src/rust_sse41.rs, src/rust_avx2.rs.
    tools/gen_coq.py (gen_counters) translates the source text of those functions into terms
    over the definitions of this file (coq/gen/GenCounters.v); Proofs/CountersP.v proves the
-   translated functions equal to the hand-written models of Model/Kernels.v.
+   translated functions equal to the hand-written models of Model/Kernels.v.  Likewise
+   gen_kernel_rounds -> coq/gen/GenRounds.v, Proofs/RoundsP.v (last part of this file).
 
    REGISTER MODEL.  A SIMD register is ONE representation whatever intrinsic reads it: the list
    of its 32-bit lanes, lane 0 (bits 31..0) first: __m128i = 4 lanes, __m256i = 8, __m512i = 16.
@@ -21,7 +23,7 @@
 
    Each definition is a direct reading of the Intel Intrinsics Guide entry named next to it. *)
 From Coq Require Import NArith ZArith List Bool.
-From V Require Import Base.Res Base.Word Model.Kernels.
+From V Require Import Base.Res Base.Word gen.GenConsts Model.Kernels.
 Import ListNotations.
 Open Scope N_scope.
 
@@ -180,3 +182,154 @@ Definition mm512_mask_set1_epi32 (s : vec) (k : kmask) (a : Z) : vec :=
   map (fun p : N * bool => if snd p then bits32 a else fst p) (combine s k).
 (* _mm512_movm_epi32 (__mmask16 k) (AVX512DQ): dst[i] := k[i] ? 0xFFFFFFFF : 0 *)
 Definition mm512_movm_epi32 (k : kmask) : vec := map (fun b : bool => if b then mask32 else 0) k.
+
+(* ================================================================== *)
+(* Intrinsics of the round helpers and of the transposes              *)
+(* (tools/gen_coq.py gen_kernel_rounds -> gen/GenRounds.v)            *)
+(* ================================================================== *)
+
+(* m[MSG_SCHEDULE[r][k]] in the C files: MSG_SCHEDULE is the table of c/blake3_impl.h
+   (gen/GenConsts.v c_MSG_SCHEDULE); an index outside the table or the array reads the default
+   (the code never does that: r < 7, k < 16, entries < 16) *)
+Definition c_mw (m : list vec) (r k : nat) : vec :=
+  nth (N.to_nat (nth k (nth r c_MSG_SCHEDULE []) 0)) m [].
+
+(* ------------------------------------------------------------------ *)
+(* 32-bit shifts left and rotates                                      *)
+(* ------------------------------------------------------------------ *)
+Definition sll32 (k : N) (x : N) : N := if 31 <? k then 0 else w32 (N.shiftl x k).
+(* _mm_slli_epi32 (a, int imm8): IF imm8[7:0] > 31 THEN 0 ELSE ZeroExtend32(a[i] << imm8[7:0])
+   (the 32 low bits of the shifted lane) *)
+Definition mm_slli_epi32 (a : vec) (k : Z) : vec := map (sll32 (imm8 k)) a.
+Definition mm256_slli_epi32 (a : vec) (k : Z) : vec := map (sll32 (imm8 k)) a.
+Definition mm512_slli_epi32 (a : vec) (k : Z) : vec := map (sll32 (imm8 k)) a.
+(* _mm_ror_epi32 (a, int imm8) (AVX512F + AVX512VL), _mm256_ror_epi32, _mm512_ror_epi32:
+     DEFINE RIGHT_ROTATE_DWORDS(src, count_src) { count := count_src % 32
+                                                  RETURN (src >> count) OR (src << (32 - count)) }
+     dst[i] := RIGHT_ROTATE_DWORDS(a[i], imm8[7:0])      (32-bit operands: the left shift keeps 32 bits) *)
+Definition ror32 (k : N) (x : N) : N :=
+  let count := k mod 32 in N.lor (N.shiftr x count) (w32 (N.shiftl x (32 - count))).
+Definition mm_ror_epi32 (a : vec) (k : Z) : vec := map (ror32 (imm8 k)) a.
+Definition mm256_ror_epi32 (a : vec) (k : Z) : vec := map (ror32 (imm8 k)) a.
+Definition mm512_ror_epi32 (a : vec) (k : Z) : vec := map (ror32 (imm8 k)) a.
+
+(* ------------------------------------------------------------------ *)
+(* 8-bit view of a register: byte j of the register is byte j mod 4 of  *)
+(* lane j / 4 (little endian)                                          *)
+(* ------------------------------------------------------------------ *)
+Definition to8 (v : vec) : list N := bytes_of_words v.
+Definition of8 (l : list N) : vec := words_of_bytes l.
+(* a `char` argument: its low 8 bits *)
+Definition bits8 (z : Z) : N := Z.to_N (z mod 256)%Z.
+(* _mm_set_epi8 (char e15, ..., char e0): dst[7:0] := e0 ... dst[127:120] := e15 *)
+Definition mm_set_epi8 (e15 e14 e13 e12 e11 e10 e9 e8 e7 e6 e5 e4 e3 e2 e1 e0 : Z) : vec :=
+  of8 [bits8 e0; bits8 e1; bits8 e2; bits8 e3; bits8 e4; bits8 e5; bits8 e6; bits8 e7; bits8 e8; bits8 e9; bits8 e10; bits8 e11; bits8 e12; bits8 e13; bits8 e14; bits8 e15].
+(* _mm256_set_epi8 (char e31, ..., char e0): dst[7:0] := e0 ... dst[255:248] := e31 *)
+Definition mm256_set_epi8 (e31 e30 e29 e28 e27 e26 e25 e24 e23 e22 e21 e20 e19 e18 e17 e16 e15 e14 e13 e12 e11 e10 e9 e8 e7 e6 e5 e4 e3 e2 e1 e0 : Z) : vec :=
+  of8 [bits8 e0; bits8 e1; bits8 e2; bits8 e3; bits8 e4; bits8 e5; bits8 e6; bits8 e7; bits8 e8; bits8 e9; bits8 e10; bits8 e11; bits8 e12; bits8 e13; bits8 e14; bits8 e15; bits8 e16; bits8 e17; bits8 e18; bits8 e19; bits8 e20; bits8 e21; bits8 e22; bits8 e23; bits8 e24; bits8 e25; bits8 e26; bits8 e27; bits8 e28; bits8 e29; bits8 e30; bits8 e31].
+(* _mm_shuffle_epi8 (a, b) (SSSE3) and _mm256_shuffle_epi8 (a, b) (AVX2), on bytes; for byte i of the result,
+   in the 128-bit half (i / 16) that contains it:
+     IF b[i] bit 7 == 1 THEN dst[i] := 0
+     ELSE index[3:0] := b[i] bits 3:0; dst[i] := a[16 * (i / 16) + index]   (no crossing of 128-bit halves) *)
+Definition pshufb (a b : list N) : list N :=
+  map (fun i => let c := nth i b 0 in
+                if N.testbit c 7 then 0 else nth (16 * (Nat.div i 16) + N.to_nat (N.land c 15))%nat a 0)
+      (seq 0 (length a)).
+Definition mm_shuffle_epi8 (a b : vec) : vec := of8 (pshufb (to8 a) (to8 b)).
+Definition mm256_shuffle_epi8 (a b : vec) : vec := of8 (pshufb (to8 a) (to8 b)).
+
+(* ------------------------------------------------------------------ *)
+(* 16-bit view of a register: element 2k is the low half of lane k      *)
+(* ------------------------------------------------------------------ *)
+Definition to16 (v : vec) : list N :=
+  flat_map (fun x => [N.land x 0xFFFF; N.land (N.shiftr x 16) 0xFFFF]) v.
+Fixpoint of16 (l : list N) : vec :=
+  match l with
+  | lo :: hi :: tl => N.lor lo (N.shiftl hi 16) :: of16 tl
+  | _ => []
+  end.
+(* the 2-bit field imm8[2j+1:2j] *)
+Definition sel2 (c : N) (j : N) : nat := N.to_nat (N.land (N.shiftr c (2 * j)) 3).
+(* _mm_shufflelo_epi16 (a, int imm8) on the eight 16-bit elements of a 128-bit register:
+     dst[15:0] := (a >> (imm8[1:0] * 16))[15:0]      dst[31:16] := (a >> (imm8[3:2] * 16))[15:0]
+     dst[47:32] := (a >> (imm8[5:4] * 16))[15:0]     dst[63:48] := (a >> (imm8[7:6] * 16))[15:0]
+     dst[127:64] := a[127:64]
+   (written per group of eight elements = per 128-bit lane, as _mm256_shufflelo_epi16 works) *)
+Fixpoint shuflo16 (c : N) (h : list N) : list N :=
+  match h with
+  | h0 :: h1 :: h2 :: h3 :: h4 :: h5 :: h6 :: h7 :: tl =>
+      let lo := [h0; h1; h2; h3] in
+      [nth (sel2 c 0) lo 0; nth (sel2 c 1) lo 0; nth (sel2 c 2) lo 0; nth (sel2 c 3) lo 0; h4; h5; h6; h7]
+        ++ shuflo16 c tl
+  | _ => []
+  end.
+Definition mm_shufflelo_epi16 (a : vec) (k : Z) : vec := of16 (shuflo16 (imm8 k) (to16 a)).
+(* _mm_shufflehi_epi16 (a, int imm8):
+     dst[63:0] := a[63:0]
+     dst[79:64] := (a >> (imm8[1:0] * 16))[79:64]    ...    dst[127:112] := (a >> (imm8[7:6] * 16))[79:64] *)
+Fixpoint shufhi16 (c : N) (h : list N) : list N :=
+  match h with
+  | h0 :: h1 :: h2 :: h3 :: h4 :: h5 :: h6 :: h7 :: tl =>
+      let hi := [h4; h5; h6; h7] in
+      [h0; h1; h2; h3; nth (sel2 c 0) hi 0; nth (sel2 c 1) hi 0; nth (sel2 c 2) hi 0; nth (sel2 c 3) hi 0]
+        ++ shufhi16 c tl
+  | _ => []
+  end.
+Definition mm_shufflehi_epi16 (a : vec) (k : Z) : vec := of16 (shufhi16 (imm8 k) (to16 a)).
+
+(* ------------------------------------------------------------------ *)
+(* unpacks and 128-bit-lane permutes                                   *)
+(* ------------------------------------------------------------------ *)
+(* _mm_unpacklo_epi32 (a, b): dst[31:0] := a[31:0]; dst[63:32] := b[31:0]; dst[95:64] := a[63:32];
+   dst[127:96] := b[63:32]; _mm256_ / _mm512_: the same within every 128-bit lane of the registers
+   (Kernels.unpacklo32: lanes 4k, 4k+1 of a and b, interleaved, for every k) *)
+Definition mm_unpacklo_epi32 : vec -> vec -> vec := unpacklo32 0.
+Definition mm256_unpacklo_epi32 : vec -> vec -> vec := unpacklo32 0.
+Definition mm512_unpacklo_epi32 : vec -> vec -> vec := unpacklo32 0.
+(* _mm_unpackhi_epi32 (a, b): dst[31:0] := a[95:64]; dst[63:32] := b[95:64]; dst[95:64] := a[127:96];
+   dst[127:96] := b[127:96]; per 128-bit lane *)
+Definition mm_unpackhi_epi32 : vec -> vec -> vec := unpackhi32 0.
+Definition mm256_unpackhi_epi32 : vec -> vec -> vec := unpackhi32 0.
+Definition mm512_unpackhi_epi32 : vec -> vec -> vec := unpackhi32 0.
+(* _mm_unpacklo_epi64 (a, b): dst[63:0] := a[63:0]; dst[127:64] := b[63:0]; per 128-bit lane *)
+Definition mm_unpacklo_epi64 : vec -> vec -> vec := unpacklo64 0.
+Definition mm256_unpacklo_epi64 : vec -> vec -> vec := unpacklo64 0.
+Definition mm512_unpacklo_epi64 : vec -> vec -> vec := unpacklo64 0.
+(* _mm_unpackhi_epi64 (a, b): dst[63:0] := a[127:64]; dst[127:64] := b[127:64]; per 128-bit lane *)
+Definition mm_unpackhi_epi64 : vec -> vec -> vec := unpackhi64 0.
+Definition mm256_unpackhi_epi64 : vec -> vec -> vec := unpackhi64 0.
+Definition mm512_unpackhi_epi64 : vec -> vec -> vec := unpackhi64 0.
+(* _mm256_permute2x128_si256 (a, b, int imm8):
+     DEFINE SELECT4(src1, src2, control) {
+       CASE control[1:0] OF 0: tmp := src1[127:0]  1: tmp := src1[255:128]  2: tmp := src2[127:0]  3: tmp := src2[255:128]
+       IF control[3] tmp := 0
+       RETURN tmp }
+     dst[127:0] := SELECT4(a, b, imm8[3:0]);  dst[255:128] := SELECT4(a, b, imm8[7:4]) *)
+Definition select4_2x128 (a b : vec) (control : N) : vec :=
+  if N.testbit control 3 then [0; 0; 0; 0]
+  else match N.land control 3 with
+       | 0 => q128 0 a 0
+       | 1 => q128 0 a 1
+       | 2 => q128 0 b 0
+       | _ => q128 0 b 1
+       end.
+Definition mm256_permute2x128_si256 (a b : vec) (k : Z) : vec :=
+  select4_2x128 a b (imm8 k) ++ select4_2x128 a b (N.shiftr (imm8 k) 4).
+(* _mm512_shuffle_i32x4 (a, b, int imm8):
+     SELECT4(src, control) = the 128-bit lane number control[1:0] of src
+     dst[127:0] := SELECT4(a, imm8[1:0]);  dst[255:128] := SELECT4(a, imm8[3:2])
+     dst[383:256] := SELECT4(b, imm8[5:4]);  dst[511:384] := SELECT4(b, imm8[7:6]) *)
+Definition mm512_shuffle_i32x4 (a b : vec) (k : Z) : vec :=
+  let c := imm8 k in
+  q128 0 a (sel2 c 0) ++ q128 0 a (sel2 c 1) ++ q128 0 b (sel2 c 2) ++ q128 0 b (sel2 c 3).
+
+(* ------------------------------------------------------------------ *)
+(* unaligned loads.  A byte pointer is a pair (byte list, offset).      *)
+(* ------------------------------------------------------------------ *)
+(* _mm_loadu_si128 (mem_addr): dst[127:0] := MEM[mem_addr+127:mem_addr]: 16 bytes, little endian, so lane k is
+   the word made of bytes 4k .. 4k+3 (Kernels.loadu k: words_of_bytes of the 4k bytes at the offset) *)
+Definition mm_loadu_si128 (buf : list N) (off : nat) : vec := loadu 4 buf off.
+(* _mm256_loadu_si256 (mem_addr): 32 bytes *)
+Definition mm256_loadu_si256 (buf : list N) (off : nat) : vec := loadu 8 buf off.
+(* _mm512_loadu_si512 (mem_addr): 64 bytes *)
+Definition mm512_loadu_si512 (buf : list N) (off : nat) : vec := loadu 16 buf off.
